@@ -16,8 +16,9 @@ public:
       : T_{threshold}
       , R_{ratio}
       , W_{knee_width} {
-        wA_ = std::exp(-std::log(9) / (sample_rate * attack_time));
-        wR_ = std::exp(-std::log(9) / (sample_rate * release_time));
+        //a zero time constant means no smoothing (and -0.0 must not turn the coefficient into exp(+inf))
+        wA_ = (attack_time > 0) ? std::exp(-std::log(9) / (sample_rate * attack_time)) : 0;
+        wR_ = (release_time > 0) ? std::exp(-std::log(9) / (sample_rate * release_time)) : 0;
         DSPLIB_ASSERT(threshold >= -50 && threshold <= 0, "`threshold` must be in range [-50:0] db");
         DSPLIB_ASSERT(ratio >= 1 && ratio <= 50, "`ratio` must be in range [1:50]");
         DSPLIB_ASSERT(knee_width >= 0 && knee_width <= 20, "`knee_width` must be in range [0:20] db");
